@@ -273,6 +273,46 @@ pub enum Call {
     BadFallbackMode,
     GetVersion,
     Clear,
+    /// one exported value setter on one of its outcomes
+    Set(Setter, SetCase),
+    AddFieldBadName,
+    UsesBadName,
+    UsesListUnknown,
+    UsesListBadName,
+    DeserializeUnknownField,
+    DeserializeTruncated,
+}
+
+#[derive(Clone, Copy, Debug, PartialEq, Eq, Hash, PartialOrd, Ord, Serialize, Deserialize)]
+pub enum Setter {
+    Int,
+    Bytes,
+    Ipv4,
+    Ipv6,
+    Bool,
+    Json,
+}
+
+#[derive(Clone, Copy, Debug, PartialEq, Eq, Hash, PartialOrd, Ord, Serialize, Deserialize)]
+pub enum SetCase {
+    Ok,
+    UnknownField,
+    /// a registered field of another type (JSON setter: a document of another type)
+    WrongType,
+    /// the name is not UTF-8
+    BadName,
+}
+
+/// The core alphabet plus every failure path of every exported function that has one.
+fn all_calls() -> Vec<Call> {
+    let mut v = CALLS.to_vec();
+    for st in [Setter::Int, Setter::Bytes, Setter::Ipv4, Setter::Ipv6, Setter::Bool, Setter::Json] {
+        for case in [SetCase::Ok, SetCase::UnknownField, SetCase::WrongType, SetCase::BadName] {
+            v.push(Call::Set(st, case));
+        }
+    }
+    v.extend([Call::AddFieldBadName, Call::UsesBadName, Call::UsesListUnknown, Call::UsesListBadName, Call::DeserializeUnknownField, Call::DeserializeTruncated]);
+    v
 }
 
 const CALLS: [Call; 17] = [
@@ -350,6 +390,90 @@ fn perform(fx: &Fixture, c: Call) -> (bool, Option<String>) {
                 }
             }
         }
+        Call::Set(st, case) => {
+            let mut ctx = ffi::wirefilter_create_execution_context(&fx.cs);
+            let mut rctx = wirefilter::ExecutionContext::<()>::new(&fx.rs);
+            let own: &[u8] = match st {
+                Setter::Int => b"i",
+                Setter::Bytes => b"s",
+                Setter::Ipv4 | Setter::Ipv6 => b"ip",
+                Setter::Bool => b"t",
+                Setter::Json => b"xi",
+            };
+            let other: &[u8] = if st == Setter::Int { b"s" } else { b"i" };
+            let name: Vec<u8> = match case {
+                SetCase::Ok => own.to_vec(),
+                SetCase::UnknownField => b"no.such".to_vec(),
+                SetCase::WrongType => if st == Setter::Json { own.to_vec() } else { other.to_vec() },
+                SetCase::BadName => [own, b"\xff"].concat(),
+            };
+            let js: &[u8] = if case == SetCase::WrongType { b"[1,\"x\"]" } else { b"[1,2]" };
+            let (np, nl) = (name.as_ptr().cast(), name.len());
+            let ok = match st {
+                Setter::Int => ffi::wirefilter_add_int_value_to_execution_context(&mut ctx, np, nl, 5),
+                Setter::Bytes => ffi::wirefilter_add_bytes_value_to_execution_context(&mut ctx, np, nl, b"v".as_ptr(), 1),
+                Setter::Ipv4 => ffi::wirefilter_add_ipv4_value_to_execution_context(&mut ctx, np, nl, &[1, 2, 3, 4]),
+                Setter::Ipv6 => ffi::wirefilter_add_ipv6_value_to_execution_context(&mut ctx, np, nl, &[7; 16]),
+                Setter::Bool => ffi::wirefilter_add_bool_value_to_execution_context(&mut ctx, np, nl, true),
+                Setter::Json => ffi::wirefilter_add_json_value_to_execution_context(&mut ctx, np, nl, js.as_ptr(), js.len()),
+            };
+            let want = match std::str::from_utf8(&name) {
+                Err(e) => Some(e.to_string()),
+                Ok(n) => {
+                    let r: Result<(), String> = match st {
+                        Setter::Int => rctx.set_field_value_from_name(n, 5i64).map(|_| ()).map_err(|e| e.to_string()),
+                        Setter::Bytes => rctx.set_field_value_from_name(n, &b"v"[..]).map(|_| ()).map_err(|e| e.to_string()),
+                        Setter::Ipv4 => rctx.set_field_value_from_name(n, std::net::IpAddr::from([1u8, 2, 3, 4])).map(|_| ()).map_err(|e| e.to_string()),
+                        Setter::Ipv6 => rctx.set_field_value_from_name(n, std::net::IpAddr::from([7u8; 16])).map(|_| ()).map_err(|e| e.to_string()),
+                        Setter::Bool => rctx.set_field_value_from_name(n, true).map(|_| ()).map_err(|e| e.to_string()),
+                        Setter::Json => match fx.rs.get_field(n) {
+                            Err(e) => Err(e.to_string()),
+                            Ok(f) => match wirefilter::GetType::get_type(&f).deserialize_value(&mut serde_json::Deserializer::from_reader(js)) {
+                                Err(e) => Err(e.to_string()),
+                                Ok(v) => rctx.set_field_value_from_name(n, v).map(|_| ()).map_err(|e| e.to_string()),
+                            },
+                        },
+                    };
+                    r.err()
+                }
+            };
+            if case == SetCase::Ok {
+                assert!(want.is_none(), "the Rust API accepts the well-typed value");
+                (!ok, None)
+            } else {
+                assert!(want.is_some(), "the Rust API refuses {c:?}");
+                (!ok, want)
+            }
+        }
+        Call::AddFieldBadName => {
+            let mut b = ffi::wirefilter_create_scheme_builder();
+            let n: &[u8] = b"f\xfe";
+            let ok = ffi::wirefilter_add_type_field_to_scheme(&mut b, n.as_ptr().cast(), n.len(), ctype(&Ty::Int));
+            (!ok, Some(std::str::from_utf8(n).unwrap_err().to_string()))
+        }
+        Call::UsesBadName | Call::UsesListUnknown | Call::UsesListBadName => {
+            let t = "t";
+            let r = ffi::wirefilter_parse_filter(&fx.cs, t.as_ptr().cast(), t.len());
+            let ast = r.ast.expect("parses");
+            let n: &[u8] = if c == Call::UsesListUnknown { b"zz" } else { b"t\xff" };
+            let u = if c == Call::UsesBadName { ffi::wirefilter_filter_uses(&ast, n.as_ptr().cast(), n.len()) } else { ffi::wirefilter_filter_uses_list(&ast, n.as_ptr().cast(), n.len()) };
+            let want = match std::str::from_utf8(n) {
+                Err(e) => e.to_string(),
+                Ok(n) => fx.rs.parse(t).unwrap().uses_list(n).unwrap_err().to_string(),
+            };
+            (u.status == Status::Error, Some(want))
+        }
+        Call::DeserializeUnknownField | Call::DeserializeTruncated => {
+            let mut ctx = ffi::wirefilter_create_execution_context(&fx.cs);
+            let js = if c == Call::DeserializeUnknownField { "{\"i\":1,\"no.such\":2}" } else { "{\"i\":1,\"s\":\"ab" };
+            let mut rctx = wirefilter::ExecutionContext::<()>::new(&fx.rs);
+            let want = {
+                use serde::de::DeserializeSeed;
+                let owned = leak_str(js.to_string());
+                rctx.deserialize(&mut serde_json::Deserializer::from_reader(owned.as_bytes())).unwrap_err().to_string()
+            };
+            (!ffi::wirefilter_deserialize_json_to_execution_context(&mut ctx, js.as_ptr(), js.len()), Some(want))
+        }
         Call::DeserializeBadJson => {
             let mut ctx = ffi::wirefilter_create_execution_context(&fx.cs);
             let js = "{\"i\":\"not a number\"}";
@@ -413,7 +537,7 @@ fn perform(fx: &Fixture, c: Call) -> (bool, Option<String>) {
 }
 
 fn is_failing(c: Call) -> bool {
-    !matches!(c, Call::ParseOk | Call::SetIntOk | Call::MatchOk | Call::GetVersion | Call::Clear)
+    !matches!(c, Call::ParseOk | Call::SetIntOk | Call::MatchOk | Call::GetVersion | Call::Clear | Call::Set(_, SetCase::Ok))
 }
 
 /// Runs a call sequence on the current thread from a clean last-error; returns problems.
@@ -511,13 +635,21 @@ pub fn run(tier: Tier, seed: u64) -> i32 {
     let mut seen: HashSet<Option<Vec<u8>>> = HashSet::new();
     seen.insert(None);
     let (mut states, mut transitions) = (1u64, 0u64);
-    for len in 1..=depth {
-        for code in 0..CALLS.len().pow(len as u32) {
+    let full = all_calls();
+    let full_depth = tier.pick(2usize, 3usize);
+    let plans: Vec<(&[Call], usize)> = vec![(&CALLS[..], depth), (&full[..], full_depth)];
+    for (alphabet, depth) in plans {
+      for len in 1..=depth {
+        for code in 0..alphabet.len().pow(len as u32) {
             let mut x = code;
             let mut seq = Vec::new();
             for _ in 0..len {
-                seq.push(CALLS[x % CALLS.len()]);
-                x /= CALLS.len();
+                seq.push(alphabet[x % alphabet.len()]);
+                x /= alphabet.len();
+            }
+            // sequences over the core alphabet are covered by the first plan
+            if alphabet.len() > CALLS.len() && seq.iter().all(|c| CALLS.contains(c)) {
+                continue;
             }
             let r = guarded(|| run_history(&fx, &seq, false));
             transitions += 1;
@@ -535,6 +667,7 @@ pub fn run(tier: Tier, seed: u64) -> i32 {
                 }
             }
         }
+      }
     }
     run.eval(transitions);
     run.count("history_transitions", transitions);
@@ -543,11 +676,13 @@ pub fn run(tier: Tier, seed: u64) -> i32 {
     let fx = std::sync::Arc::new(FixtureShared(fixture()));
     let pair_calls = [Call::ParseErr, Call::SetIntWrongType, Call::Clear, Call::ParseOk, Call::UsesUnknown, Call::ParseErrWithNul];
     let mut schedules = 0u64;
+    // (the weights are the calls' positions in the core alphabet)
+    let pos = |c: Call| CALLS.iter().position(|x| *x == c).unwrap_or(0);
     for a0 in pair_calls {
         for a1 in pair_calls {
             for b0 in pair_calls {
                 for b1 in pair_calls {
-                    if tier == Tier::Quick && (a0 as usize + 2 * a1 as usize + 3 * b0 as usize + b1 as usize) % 7 != 0 {
+                    if tier == Tier::Quick && (pos(a0) + 2 * pos(a1) + 3 * pos(b0) + pos(b1)) % 7 != 0 {
                         continue;
                     }
                     let (sa, sb) = (vec![a0, a1], vec![b0, b1]);
@@ -643,7 +778,7 @@ pub fn run(tier: Tier, seed: u64) -> i32 {
     run.set("states", json!(states));
     run.set("transitions", json!(transitions + schedules));
     run.set("traces_validated_against_impl", json!(transitions + schedules));
-    run.set("bounds", json!({"history_depth": depth, "calls": format!("{CALLS:?}"), "two_thread_calls": format!("{pair_calls:?}")}));
+    run.set("bounds", json!({"history_depth": depth, "calls": format!("{CALLS:?}"), "all_calls": format!("{:?}", all_calls()), "all_calls_depth": full_depth, "two_thread_calls": format!("{pair_calls:?}")}));
     run.sample(8, || json!({"history": ["ParseErrWithNul", "SetIntOk", "Clear", "UsesUnknown"], "expected_last_error_after_each": ["<parse error text with NUL -> 0x1a>", "<unchanged>", null, "unknown field"]}));
     run.count("last_error_states", states);
     run.finish(
